@@ -41,6 +41,8 @@ def tasks(tier):
   T((3,), second_order='shampoo', block_size=2, merge_dims=2, graft='NONE', skip_rank1=False)            # padded to 4
   T((2, 2), second_order='shampoo', block_size=4, merge_dims=4, graft='SGD', start=0, lr_schedule=True)   # merged to (4,)
   T((2, 2), second_order='shampoo', block_size=4, merge_dims=2, graft='RMSPROP', start=1, momentum_decay=0.0)
+  T((4,), second_order='shampoo', block_size=2, merge_dims=2, graft='SGD', skip_rank1=False, start=1, momentum_decay=0.0, weight_decay=0.125, wd_after=True)
+  T((2, 2), second_order='shampoo', block_size=4, merge_dims=2, graft='NONE', momentum_decay=0.0, weight_decay=0.125, wd_after=False)
   # Sketchy second order
   T((3,), second_order='sketchy', sk_rank=1, merge_dims=2, graft='NONE', skip_rank1=False, decay=0.5)
   T((3,), second_order='sketchy', sk_rank=1, merge_dims=2, graft='SGD', skip_rank1=False, decay=1.0, start=1, sk_freq=2)
